@@ -909,7 +909,7 @@ CELLS += [
          "MeshOptimizer with one Translation / Rotation / Symmetry link from the first clamped vertex", FIXED_MESH_LINKS),
     Cell("C13/sketch/links", sketch_case(links=True), check_run, 8, 200,
          "SketchOptimizer with one link", FIXED_SKETCH_LINKS),
-    Cell("C13/mesh/near-minimum", mesh_case(premin=True, dims_pool=DIMS_ROW), check_run, 4, 80,
+    Cell("C13/mesh/near-minimum", mesh_case(premin=True, dims_pool=DIMS_ROW), check_run, 3, 80,
          "1-2 free clamps on vertices that the harness first moves to the minimum of the summed quality (own Nelder-Mead "
          "on an own grid): the optimizer minimises the cells at the vertex only, so every step that is kept must have "
          "passed the whole-grid comparison", FIXED_NEAR_MINIMUM),
